@@ -12,7 +12,7 @@ ID = 'C04'
 KIND = 'explorer'
 LEVEL = 'model_checking'
 GRAPH = {'quick': 2, 'thorough': 3}
-BUDGET = {'quick': 150, 'thorough': 1500}
+BUDGET = {'quick': 900, 'thorough': 10800}
 RULE = ('breadth-first search over canonical quiescent states of a two-watcher daemon; bursts of '
         '<= (1 request + 1 worker death) at every loop-iteration boundary / before every kernel call; worlds with '
         'hook outcomes {false, raise} on the k-th call of before_spawn / after_spawn / after_start and exec '
